@@ -33,7 +33,12 @@ AcceptHeader(b, p) == /\ b \notin known /\ b = Cardinality(known) /\ p \in known
 
 \* block data arrives (possibly before the parent's data: stored, but no candidate yet)
 AcceptBlock(b) == /\ b \in known \ data /\ b \notin failed
-                  /\ data' = data \cup {b} /\ valid' = [valid EXCEPT ![b] = 3] /\ UNCHANGED <<parent, known, failed, tip>>
+                  /\ data' = data \cup {b} /\ valid' = [valid EXCEPT ![b] = IF @ > 3 THEN @ ELSE 3] /\ UNCHANGED <<parent, known, failed, tip>>
+
+\* pruning: the stored data of a block that is not on the active chain is deleted (its blk file was removed); the record keeps
+\* its validity level and transaction count, only BLOCK_HAVE_DATA is cleared
+Prune(b) == /\ b \in data /\ b \notin Anc(tip)
+            /\ data' = data \ {b} /\ UNCHANGED <<parent, known, valid, failed, tip>>
 
 \* candidates for the tip: data for the whole ancestry, nothing failed
 Cand == {b \in data : Anc(b) \subseteq data /\ Anc(b) \cap failed = {}}
@@ -54,7 +59,7 @@ ConnectFail(c) == /\ c \in Better /\ tip \in Anc(c)
                   /\ UNCHANGED <<parent, known, data, valid, tip>>
 
 Next == \/ \E b \in Blk, p \in Blk : AcceptHeader(b, p)
-        \/ \E b \in Blk : AcceptBlock(b)
+        \/ \E b \in Blk : AcceptBlock(b) \/ Prune(b)
         \/ \E c \in Blk : DisconnectToFork(c) \/ ConnectOk(c) \/ ConnectFail(c)
 Spec == Init /\ [][Next]_vars
 
